@@ -42,6 +42,7 @@ def natural_cases(quick):
             out.append({'kind': kind, 'target': 'p_echo', 'inputs': [1, 2], 'close': True, 'events': [], 'observe': obsv, 'ending': 'natural'})
             out.append({'kind': kind, 'target': 'p_poison', 'inputs': [1, 99, 3], 'close': True, 'events': [], 'observe': obsv, 'ending': 'natural'})
             out.append({'kind': kind, 'target': 'p_echo', 'inputs': [], 'close': True, 'events': [], 'observe': obsv, 'ending': 'natural'})
+            out.append({'kind': kind, 'target': 'p_sysexit', 'inputs': [1, 99, 3], 'close': True, 'events': [], 'observe': obsv, 'ending': 'natural'})
     return out
 
 
@@ -76,6 +77,9 @@ def expected(case):
         own = [(False, n, None) for n in range(len(case.get('inputs', [])) + 1)]
     elif t == 'p_poison':
         own = [(True, None, {'exc': 'ValueError', 'args': ['poison', 99]})]
+    elif t == 'p_sysexit':
+        # a BaseException: the exception itself or nothing
+        own = [(True, None, {'exc': 'SystemExit', 'args': [3]}), (True, None, None)]
     else:
         shape, val = NATURAL[t]
         if shape == 'A':
